@@ -54,6 +54,7 @@ CONSTANTS Variant,    \* "force": the code as it is (`git worktree remove --forc
           Emit        \* TRUE: print one CASE line per terminal state (the fault schedules to replay)
 
 \* ---- the repository the harness builds (gverif/props/c20_repo.py builds exactly this) ----------------
+\*   two packages: public c20pkg re-exports from private _c20pkg (griffe/_griffe layout); the API lives in _c20pkg
 \*   commits  c1 (no package)  c2 (pkg with a syntax error)  c3 (pkg, API 1)  c4 (pkg, API 2)  c5 (HEAD, API 2)
 \*   tags     v0 -> c1, bad -> c2, v1 -> c3 (the latest tag)
 \*   branches main -> c5 (checked out), feat/x -> c4, feat-x -> c4 (normalises like feat/x), x -> c3,
@@ -88,7 +89,8 @@ VARIABLES plan,       \* the environment of this behaviour (constant along it)
           wtDirty,    \* the current checkout contains untracked, non-ignored files
           imported,   \* the package is in sys.modules (inspection imported it: a second inspection in the same
                       \* process - check() - gets the cached module and compiles nothing)
-          lines,      \* <<BOOLEAN>>: per returned object, whether its source lines are in the lines collection
+          lines,      \* <<BOOLEAN>>: per loaded object, whether it is fully usable (lines stored AND aliases into the
+                      \* private sibling package resolved while the checkout existed)
           outcome,    \* "running" | "returned" | exception class that left the top-level call
           exitcode    \* check's return value (NoExit: none)
 gitvars == <<head, status, branches, worktrees>>
@@ -148,15 +150,18 @@ Analyse ==         \* _load_package -> _visit_module / _inspect_module (imports 
        ELSE /\ Goto("ExtensionHook") /\ UNCHANGED <<pending, inTry>>
             /\ wtDirty' = (plan.analysis = "inspect" /\ plan.bc = "on" /\ ~imported)
             /\ imported' = (imported \/ plan.analysis = "inspect")
-            /\ lines' = Append(lines, TRUE)       \* both agents store the lines (store_source defaults to True)
+            /\ lines' = Append(lines, FALSE)      \* lines stored (store_source), but members re-exported from the
+                                                  \* private sibling package are still unresolved aliases
   /\ UNCHANGED <<plan, intrs, phase, lastrc, gitvars, tmpDirs, outcome, exitcode>>
 ExtensionHook ==   \* extensions.call("on_package_loaded", ...)
   /\ pc = "ExtensionHook"
   /\ IF plan.extAt = phase THEN RaiseInTry("ExtError") ELSE Goto("ResolveAliases") /\ UNCHANGED <<pending, inTry>>
   /\ UNCHANGED <<plan, intrs, phase, lastrc, gitvars, tmpDirs, wtDirty, imported, lines, outcome, exitcode>>
-ResolveAliases ==  \* loader.resolve_aliases(...)
+ResolveAliases ==  \* loader.resolve_aliases(...): side-loads the private sibling package from the search paths,
+                   \* i.e. from the checkout - the result is usable only if the checkout still exists at this point
   /\ pc = "ResolveAliases" /\ Goto("Return")
-  /\ UNCHANGED <<plan, intrs, phase, pending, inTry, lastrc, gitvars, tmpDirs, wtDirty, imported, lines, outcome, exitcode>>
+  /\ lines' = [lines EXCEPT ![Len(lines)] = (inTry /\ MyEntry \in worktrees /\ Tmp \in tmpDirs)]
+  /\ UNCHANGED <<plan, intrs, phase, pending, inTry, lastrc, gitvars, tmpDirs, wtDirty, imported, outcome, exitcode>>
 Return ==          \* `return load(...)` leaves the with block: the generator resumes after the yield
   /\ pc = "Return" /\ Goto("WorktreeRemove") /\ inTry' = FALSE
   /\ UNCHANGED <<plan, intrs, phase, pending, lastrc, gitvars, tmpDirs, wtDirty, imported, lines, outcome, exitcode>>
